@@ -23,6 +23,9 @@ pub fn all_observers(cfg: &mut Cfg) {
     cfg.sels.push(SelSpec { sel: "*".into(), el: true, end_tag: true, text: false, comments: false, ops: vec![] });
 }
 
+/// selector of the auditing handler (spelled unlike any generated selector)
+const AUDITOR: &str = "*:not(audit-no-such-tag)";
+
 pub fn decode(tape: &[u16]) -> Case {
     let mut t = Tape::new(tape);
     let soup = t.chance(1, 4);
@@ -47,6 +50,10 @@ pub fn decode(tape: &[u16]) -> Case {
             if !s.ops.is_empty() {
                 cfg.sels.push(s);
             }
+        }
+        // an auditor registered last: reads every element again after the edits of the handlers before it
+        if cfg.sels.len() > 1 {
+            cfg.sels.push(SelSpec { sel: AUDITOR.into(), el: true, ..Default::default() });
         }
     }
     let d = doc(&mut t, &DocOpts { enc, ..DocOpts::default() });
@@ -117,6 +124,33 @@ pub fn check_doc(d: &Doc, cuts: &[usize], cfg: &Cfg, st: &mut Stats) -> PResult 
     if got != exp {
         let k = got.iter().zip(exp.iter()).position(|(x, y)| x != y).unwrap_or(got.len().min(exp.len()));
         fail!("C14: reported token/location differs from the generator's layout at event #{k}:\n  got      {:?}\n  expected {:?}", got.get(k), exp.get(k));
+    }
+    // locations read *after* earlier handlers edited the element: a location that is still
+    // reported must be truthful (the bytes there are this attribute's name / current value), and
+    // attributes no handler touched keep theirs ("None for attributes that were added or modified")
+    if cfg.sels.last().map(|s| s.sel == AUDITOR).unwrap_or(false) {
+        let audit_h = format!("s{}", cfg.sels.len() - 1);
+        let set_names: Vec<String> = cfg.sels.iter().flat_map(|s| s.ops.iter()).filter_map(|o| if let Op::SetAttr(n, _) = &o.op { Some(n.to_ascii_lowercase()) } else { None }).collect();
+        let mut audited = 0;
+        for ev in r.events.iter().filter(|e| e.handler() == audit_h) {
+            let Ev::Element { attrs, loc, .. } = ev else { continue };
+            let Some(ti) = d.toks.iter().position(|t| t.kind == TK::Start && t.start == loc.0) else { fail!("C14: audited element at {loc:?} is not a start tag of the layout") };
+            let src = &tree.elems[tree.tok_elem[ti].unwrap()].attrs;
+            for a in attrs {
+                if let Some(nl) = a.name_loc {
+                    ensure!(src.iter().any(|s| s.name_range == nl && s.name_pc == a.name_pc), "C14: after an edit, attribute {:?} reports name location {nl:?}, which is not the bytes of that name (tag {:?})", a.name_pc, show(&d.bytes[loc.0..loc.1]));
+                }
+                if let Some(vl) = a.value_loc {
+                    ensure!(src.iter().any(|s| s.value_range == vl && s.value == a.value), "C14: after an edit, attribute {:?} with value {:?} reports value location {vl:?}, which is not the bytes of that value (tag {:?}, bytes there {:?})", a.name_pc, a.value, show(&d.bytes[loc.0..loc.1]), show(d.bytes.get(vl.0..vl.1.min(d.bytes.len())).unwrap_or(&[])));
+                }
+                if !set_names.contains(&a.name) {
+                    ensure!(a.name_loc.is_some() && a.value_loc.is_some(), "C14: untouched attribute {:?} lost its source location after another attribute was edited (tag {:?})", a.name_pc, show(&d.bytes[loc.0..loc.1]));
+                }
+                audited += 1;
+            }
+        }
+        st.label_if(audited > 0, "locations_audited_after_edits");
+        st.label_if(r.events.iter().any(|e| e.handler() == audit_h && matches!(e, Ev::Element { attrs, .. } if attrs.iter().any(|a| a.value_loc.is_none()))), "edited_attribute_without_location");
     }
     // classification
     let n_attr: usize = tree.elems.iter().map(|e| e.attrs.len()).sum();
